@@ -11,7 +11,6 @@ pub fn def() -> PropDef {
         assumptions: BASE_ASSUMPTIONS,
         floor: |t| t.pick(100_000, 1_000_000),
         run,
-        panics_are_verdict: false,
     }
 }
 
